@@ -1102,6 +1102,12 @@ impl DbInner {
 		Ok(false)
 	}
 
+	// A log that can not be read is not a damaged log: replay discards what is there and wrong, or
+	// ends early, but leaves the files alone when the read itself failed.
+	fn is_read_failure(e: &Error) -> bool {
+		matches!(e, Error::Io(e) if e.kind() != std::io::ErrorKind::UnexpectedEof)
+	}
+
 	fn enact_logs(&self, validation_mode: bool) -> Result<bool> {
 		let _iteration_lock = self.iteration_lock.lock();
 		let cleared = {
@@ -1139,6 +1145,7 @@ impl DbInner {
 					loop {
 						let next = match reader.next() {
 							Ok(next) => next,
+							Err(e) if Self::is_read_failure(&e) => return Err(e),
 							Err(e) => {
 								log::debug!(target: "parity-db", "Error reading log: {:?}", e);
 								return Ok(false)
@@ -1163,6 +1170,9 @@ impl DbInner {
 										)
 									},
 								) {
+									if Self::is_read_failure(&e) {
+										return Err(e)
+									}
 									log::warn!(target: "parity-db", "Error validating log: {:?}.", e);
 									drop(reader);
 									self.log.clear_replay_logs();
@@ -1180,6 +1190,9 @@ impl DbInner {
 										)
 									},
 								) {
+									if Self::is_read_failure(&e) {
+										return Err(e)
+									}
 									log::warn!(target: "parity-db", "Error validating log: {:?}.", e);
 									drop(reader);
 									self.log.clear_replay_logs();
@@ -1197,6 +1210,9 @@ impl DbInner {
 										)
 									},
 								) {
+									if Self::is_read_failure(&e) {
+										return Err(e)
+									}
 									log::warn!(target: "parity-db", "Error validating log: {:?}.", e);
 									drop(reader);
 									self.log.clear_replay_logs();
